@@ -1,4 +1,5 @@
 import Acra.Model.NPD
+import Acra.Lemmas.ReviewC08Records
 namespace Acra.Props.C08
 open Acra.Py Acra.Model.NPD Acra.Gen.NPD
 
@@ -128,6 +129,25 @@ theorem decSeg_progress (k : Kind) : Progress (decSeg k) where
       simp at this
     · simp at h
 
+/-- [review] the per-iteration bound of DESIGN §5 C08, stated for the loop step itself: an accepted segment
+    advances the offset by its (rewritten) `segmentlen` rounded up to a multiple of 4 — at least 8 bytes -/
+theorem decSeg_advance_ge (k : Kind) (b : Bytes) (g : Seg) (n : Nat) (h : decSeg k b = .ok (g, n)) :
+    8 ≤ n ∧ n % 4 = 0 ∧ g.segmentlen ≤ n ∧ n < g.segmentlen + 4 ∧ 8 ≤ b.length := by
+  simp only [decSeg] at h
+  split at h
+  · rename_i g' r hg
+    simp only [Except.ok.injEq, Prod.mk.injEq] at h
+    have := (Segment_unpack_total (Seg.fresh k) b).2 r (by rw [hg])
+    rw [hg] at this
+    obtain ⟨h1, h2⟩ := h
+    subst h1
+    simp only at this
+    subst h2
+    by_cases hm : g'.segmentlen % 4 = 0
+    · simp [hm]; omega
+    · simp [hm]; omega
+  · simp at h
+
 /-- `NPD.unpack` terminates on every buffer -/
 theorem NPD_unpack_total (t : State) (buf : Bytes) : (unpack t buf).2 ≠ .error .fuel := by
   simp only [unpack]
@@ -168,5 +188,43 @@ theorem NPD_items_le (t : State) (buf : Bytes) (h : (unpack t buf).2 = .ok ()) :
       · simp
   · simp
   · simp
+
+/-- [review] witness: NPD packet (header 20 bytes) with two segments, payloads of 6 bytes (+2 pad) and 1 byte (+3 pad) -/
+def wNPD : Bytes :=
+  [53, 16, 0, 12, 0, 0, 0, 0, 0, 0, 0, 0, 235, 0, 0, 1, 0, 0, 0, 7,  0, 0, 0, 1, 0, 14, 2, 3, 0, 5, 1, 2, 9, 9, 255, 255,
+   0, 0, 0, 1, 0, 9, 2, 3, 7, 255, 255, 255]
+
+example : (unpack fresh wNPD).2 = .ok () ∧ (unpack fresh wNPD).1.segments.length = 2 := ⟨by rfl, by rfl⟩
+example : decSeg .base (wNPD.drop 20) = .ok ({ Seg.fresh .base with timedelta := 1, segmentlen := 14, errorcode := 2, flags := 3, payload := [0, 5, 1, 2, 9, 9] }, 16) := by rfl
+
+/-- [review] work bound with the real stride: at most ⌈|buf|/8⌉ segments -/
+theorem NPD_items_stride (t : State) (buf : Bytes) (h : (unpack t buf).2 = .ok ()) :
+    (unpack t buf).1.segments.length * 8 ≤ buf.length + 7 := by
+  revert h
+  simp only [unpack]
+  split
+  · rename_i vh dt pl cc fl sq ds mc ts hh
+    split
+    · simp
+    · generalize hp : List.drop _ buf = payload
+      have hpl : payload.length ≤ buf.length := by rw [← hp]; simp
+      split
+      · rename_i gs hd
+        intro _
+        have := Acra.Lemmas.ReviewC08.decOff_items_stride (decSeg (kindOf dt)) moreNe payload (decSeg_progress _) 8
+          (fun b x n hb => (decSeg_advance_ge _ b x n hb).1) _ 0 gs hd
+        simp only
+        omega
+      · simp
+      · simp
+  · simp
+  · simp
+-- joint witnesses for the hypotheses `(Seg.unpackBase t buf).2 = .ok r` / `(Seg.unpack t buf).2 = .ok r`
+example : (Seg.unpackBase (Seg.fresh .base) (wNPD.drop 20)).2 = .ok (wNPD.drop 36) ∧
+    (Seg.unpackBase (Seg.fresh .base) (wNPD.drop 20)).1.segmentlen = 14 := ⟨by rfl, by rfl⟩
+example : (Seg.unpack (Seg.fresh .mil1553) (wNPD.drop 20)).2 = .ok (wNPD.drop 36) := by rfl
+/-- a declared segment length of 0 (or anything below 8) still advances by 8: the setter rewrote it -/
+example : decSeg .base [0, 0, 0, 1, 0, 0, 2, 3, 9, 9, 9, 9] =
+    .ok ({ Seg.fresh .base with timedelta := 1, segmentlen := 8, errorcode := 2, flags := 3 }, 8) := by rfl
 
 end Acra.Props.C08
